@@ -143,16 +143,17 @@ Proof.
     rewrite N.pow_succ_r' in H. lia.
 Qed.
 
-Lemma fast_fill_array_terminates : forall len, 0 < len -> fast_fill_array (ffa_fuel len) len = LDone.
+Lemma fast_fill_array_terminates : forall len, fast_fill_array (ffa_fuel len) len = LDone.
 Proof.
-  intros len Hpos. unfold fast_fill_array. destruct (N.eqb_spec len 0) as [->|_]; [lia|].
+  intros len. unfold fast_fill_array. destruct (N.eqb_spec len 0) as [->|Hnz]; [reflexivity|].
+  assert (Hpos : 0 < len) by lia.
   destruct (ffa_loop (ffa_fuel len) 1 len) eqn:E; [reflexivity|]. exfalso. revert E.
   unfold ffa_fuel. apply ffa_enough; [lia|]. rewrite N2Nat.id, N.mul_1_l.
   destruct (N.eq_dec len 1) as [->|Hne]; [cbn; lia|].
   apply (N.log2_up_spec len). lia.
 Qed.
 
-Lemma fast_fill_array_zero_panics : forall fuel, fast_fill_array fuel 0 = LPanic.
+Lemma fast_fill_array_orig_zero_panics : forall fuel, fast_fill_array_orig fuel 0 = LPanic.
 Proof. reflexivity. Qed.
 
 Lemma ff_zero_spins : forall fuel len, 0 < len -> ff_loop fuel 0 len = None.
